@@ -195,8 +195,9 @@ def escaped_simple_key_over_1024(d):
     return any(len(m.group(0)) > 1024 for m in re.finditer(r'"(?:[^"\\\r\n]|\\.)*" ?:', d.get('text') or ''))
 
 def folded_more_indented_line_folded(d):
-    """folded style ('>') with a small width: write_folded folds at a space inside a more-indented line (a line that
-    starts with a space); on reading, more-indented lines keep their breaks, so the space comes back as a line break."""
+    """folded style ('>') with a small width: write_folded folds at a space of a more-indented line (a line that starts with
+    a space); on reading, more-indented lines keep their breaks, so a space inside the line comes back as a line break, and a
+    single leading space folded at column == indent (indentation already beyond the width) is lost altogether."""
     if d.get('kind') not in ('roundtrip_differs', 'emit_parse_differs', 'not_fixed_point'): return False
     if _opt(d, 'width') is None and not d.get('events'): return False
     folded = _opt(d, 'default_style') == '>'
@@ -204,7 +205,9 @@ def folded_more_indented_line_folded(d):
         from tools.events import dec_case
         try: folded = any(e[0] == 'SC' and e[6] == '>' for e in dec_case(d['events'])[0])
         except Exception: folded = False
-    return folded and any(re.search(r'(^|\n) +[^ \n]+ +[^ \n]', s) for s in _strings_of_case(d))
+    # a more-indented line (starts with a space): either a space inside it is folded, or - when the indentation already exceeds
+    # the width - its single leading space is 'folded' at the very start of the line, where write_indent() writes nothing
+    return folded and any(re.search(r'(^|\n) +[^ \n]', s) for s in _strings_of_case(d))
 
 def primary_handle_redefined(d):
     """a document whose %TAG directive redefines the primary handle '!' (e.g. %TAG ! !my-) and that carries a local tag
